@@ -47,6 +47,13 @@ func (app *Application) executorCommit(
 	cc *roothash.ExecutorCommit,
 ) (err error) {
 	if ctx.IsCheckOnly() {
+		// Only runtimes that can currently accept commitments are of interest. Without this
+		// check every (possibly non-existent) runtime identifier seen in a transaction would
+		// allocate notifier state that is never released.
+		if _, err = app.getRuntimeState(ctx, state, cc.ID); err != nil {
+			return err
+		}
+
 		// Notify subscribers about observed commitments.
 		for _, ec := range cc.Commits {
 			app.ecn.DeliverExecutorCommitment(cc.ID, &ec)
